@@ -99,6 +99,9 @@ def fam_radio(tier):
         if ch:
             # a boolean attribute counts by presence, whatever its value
             a.append(('checked', {'n': '', 'm': 'false', '': 'checked', None: 'x'}[nm]))
+        # attribute order carries no meaning: each group name uses another order (checked first, in the middle, last)
+        order = {'n': ('type', 'name', 'checked'), 'm': ('checked', 'type', 'name'), '': ('name', 'checked', 'type'), None: ('checked', 'type')}[nm]
+        a.sort(key=lambda kv: order.index(kv[0]))
         return E('input', tuple(a))
     for combo in combos:
         slot = {'A': [], 'B': [], 'none': [], 'iframe': []}
